@@ -6,7 +6,8 @@ import ScionVerif.Model.HopPred
   over the characters (state `none` = between tokens, `some (start, ident)` = inside a hop predicate);
   spans are byte offsets (`Char.utf8Size`);
 * `parseExpr` / `parseLoop` mirror `HopPatternParser::parse_expr` (prefix/atom part and the left
-  denotation loop); `parseTop` mirrors `HopPatternParser::parse`.  The recursion is on explicit fuel;
+  denotation loop) including the `nesting` argument, the tracked `depth` and every `check_depth`
+  (`MAX_EXPRESSION_DEPTH`); `parseTop` mirrors `HopPatternParser::parse`.  The recursion is on explicit fuel;
   `Theorems/C16.lean` proves that `tokens.length + 1` units are always enough (`parse_total`), so the
   `fuel` error is unreachable.  Token positions in errors are given as the number of tokens that were
   still unread (including the offending one) – the driver turns this into a token index;
@@ -100,6 +101,15 @@ inductive Expr where
   | zeroOrMore (a : Expr)
 deriving DecidableEq, Repr
 
+/-- depth of the syntax tree: a hop predicate has depth 1, every operator is one level above its deepest
+    operand (the quantity that `match_from`, `clone`, `eq`, `drop` recurse on) -/
+def Expr.depth : Expr → Nat
+  | .pred _ => 1
+  | .or a b => max a.depth b.depth + 1
+  | .optional a => a.depth + 1
+  | .oneOrMore a => a.depth + 1
+  | .zeroOrMore a => a.depth + 1
+
 /-- `ParseError` classes; the `Nat` is the number of unread tokens when the offending token was read
     (the offending token included) -/
 inductive PErr where
@@ -111,46 +121,63 @@ inductive PErr where
   | unexpectedEnd
   | andUnsupported (rem : Nat)
   | trailingTokens (rem : Nat)
+  /-- `check_depth`: "expression is nested deeper than MAX_EXPRESSION_DEPTH levels" (at the `(` / operator token) -/
+  | tooDeep (rem : Nat)
   | fuel
 deriving DecidableEq, Repr
 
+/-- `check_depth(depth, span)` fails -/
+def depthExceeded (depth : Nat) : Bool := decide (depth > MAX_EXPRESSION_DEPTH)
+
 mutual
-/-- `parse_expr`, prefix / atom part -/
-def parseExpr : Nat → Nat → List Tok → Except PErr (Expr × List Tok)
-  | 0, _, _ => .error .fuel
-  | fuel + 1, bp, toks =>
+/-- `parse_expr(left_binding_power, nesting)`, prefix / atom part.  Result: expression, the depth the code
+    tracks for it, unread tokens. -/
+def parseExpr : Nat → Nat → Nat → List Tok → Except PErr ((Expr × Nat) × List Tok)
+  | 0, _, _, _ => .error .fuel
+  | fuel + 1, nesting, bp, toks =>
     match toks with
     | [] => .error .unexpectedEnd
     | .pred s :: rest =>
       match parsePred s with
       | none => .error (.invalidPred toks.length)
-      | some p => parseLoop fuel bp (.pred p) rest
+      | some p => parseLoop fuel nesting bp (.pred p) PRED_DEPTH rest
     | .bang :: _ => .error (.bangUnsupported toks.length)
     | .lparen :: rest =>
-      match parseExpr fuel NO_BIND_POWER rest with
-      | .error e => .error e
-      | .ok (e, rest') =>
-        match rest' with
-        | .rparen :: rest'' => parseLoop fuel bp e rest''
-        | [] => .error (.unclosedParen toks.length)
-        | _ :: _ => .error (.expectedRParen rest'.length)
+      if depthExceeded (nesting + 1) then .error (.tooDeep toks.length)
+      else
+        match parseExpr fuel (nesting + 1) NO_BIND_POWER rest with
+        | .error e => .error e
+        | .ok ((e, d), rest') =>
+          match rest' with
+          | .rparen :: rest'' => parseLoop fuel nesting bp e d rest''
+          | [] => .error (.unclosedParen toks.length)
+          | _ :: _ => .error (.expectedRParen rest'.length)
     | _ :: _ => .error (.unexpectedToken toks.length)
-/-- `parse_expr`, left denotation loop (postfix operators, then infix `|`) -/
-def parseLoop : Nat → Nat → Expr → List Tok → Except PErr (Expr × List Tok)
-  | 0, _, _, _ => .error .fuel
-  | fuel + 1, bp, e, toks =>
+/-- `parse_expr`, left denotation loop (postfix operators via `consume_postfix`, then infix `|`) -/
+def parseLoop : Nat → Nat → Nat → Expr → Nat → List Tok → Except PErr ((Expr × Nat) × List Tok)
+  | 0, _, _, _, _, _ => .error .fuel
+  | fuel + 1, nesting, bp, e, d, toks =>
     match toks with
-    | .qmark :: rest => parseLoop fuel bp (.optional e) rest
-    | .plus :: rest => parseLoop fuel bp (.oneOrMore e) rest
-    | .star :: rest => parseLoop fuel bp (.zeroOrMore e) rest
+    | .qmark :: rest =>
+      if depthExceeded (d + 1) then .error (.tooDeep toks.length)
+      else parseLoop fuel nesting bp (.optional e) (d + 1) rest
+    | .plus :: rest =>
+      if depthExceeded (d + 1) then .error (.tooDeep toks.length)
+      else parseLoop fuel nesting bp (.oneOrMore e) (d + 1) rest
+    | .star :: rest =>
+      if depthExceeded (d + 1) then .error (.tooDeep toks.length)
+      else parseLoop fuel nesting bp (.zeroOrMore e) (d + 1) rest
     | .and :: _ => .error (.andUnsupported toks.length)
     | .or :: rest =>
-      if bp > OR_BIND_POWER then .ok (e, toks)
+      if bp > OR_BIND_POWER then .ok ((e, d), toks)
+      else if depthExceeded (nesting + 1) then .error (.tooDeep toks.length)
       else
-        match parseExpr fuel (if OR_LEFT_TO_RIGHT then OR_BIND_POWER + 1 else OR_BIND_POWER) rest with
+        match parseExpr fuel (nesting + 1) (if OR_LEFT_TO_RIGHT then OR_BIND_POWER + 1 else OR_BIND_POWER) rest with
         | .error err => .error err
-        | .ok (r, rest') => parseLoop fuel bp (.or e r) rest'
-    | _ => .ok (e, toks)
+        | .ok ((r, dr), rest') =>
+          if depthExceeded (max d dr + 1) then .error (.tooDeep toks.length)
+          else parseLoop fuel nesting bp (.or e r) (max d dr + 1) rest'
+    | _ => .ok ((e, d), toks)
 end
 
 /-- `HopPatternParser::parse` (`acc` = expressions so far, reversed) -/
@@ -161,15 +188,72 @@ def parseTop : Nat → List Tok → List Expr → Except PErr (List Expr)
     | .eoi :: rest =>
       if rest.isEmpty then .ok acc.reverse else .error (.trailingTokens toks.length)
     | _ =>
-      match parseExpr (toks.length + 1) NO_BIND_POWER toks with
+      match parseExpr (toks.length + 1) TOP_NESTING NO_BIND_POWER toks with
       | .error e => .error e
-      | .ok (e, rest) => parseTop fuel rest (e :: acc)
+      | .ok ((e, _), rest) => parseTop fuel rest (e :: acc)
 
 /-- `HopPatternParser::new(tokens).parse()` -/
 def parseTokens (toks : List Tok) : Except PErr (List Expr) := parseTop (toks.length + 1) toks []
 
 /-- `HopPatternPolicy::parse` -/
 def parsePolicy (s : List Char) : Except PErr (List Expr) := parseTokens (lexKinds s)
+
+/-! ## the grammar: the same parser without the depth limit
+
+Proof device only (not driven by the harness): `parseExprU` / `parseLoopU` / `parseTopU` are `parse_expr` /
+`parse` with every `check_depth` removed.  `Lemmas/Policy.lean` proves that the limited parser either reports
+`tooDeep` or returns exactly what the unlimited one returns (`parse_agrees`), so results about the grammar
+(redundant parentheses, totality) carry over. -/
+
+mutual
+def parseExprU : Nat → Nat → List Tok → Except PErr (Expr × List Tok)
+  | 0, _, _ => .error .fuel
+  | fuel + 1, bp, toks =>
+    match toks with
+    | [] => .error .unexpectedEnd
+    | .pred s :: rest =>
+      match parsePred s with
+      | none => .error (.invalidPred toks.length)
+      | some p => parseLoopU fuel bp (.pred p) rest
+    | .bang :: _ => .error (.bangUnsupported toks.length)
+    | .lparen :: rest =>
+      match parseExprU fuel NO_BIND_POWER rest with
+      | .error e => .error e
+      | .ok (e, rest') =>
+        match rest' with
+        | .rparen :: rest'' => parseLoopU fuel bp e rest''
+        | [] => .error (.unclosedParen toks.length)
+        | _ :: _ => .error (.expectedRParen rest'.length)
+    | _ :: _ => .error (.unexpectedToken toks.length)
+def parseLoopU : Nat → Nat → Expr → List Tok → Except PErr (Expr × List Tok)
+  | 0, _, _, _ => .error .fuel
+  | fuel + 1, bp, e, toks =>
+    match toks with
+    | .qmark :: rest => parseLoopU fuel bp (.optional e) rest
+    | .plus :: rest => parseLoopU fuel bp (.oneOrMore e) rest
+    | .star :: rest => parseLoopU fuel bp (.zeroOrMore e) rest
+    | .and :: _ => .error (.andUnsupported toks.length)
+    | .or :: rest =>
+      if bp > OR_BIND_POWER then .ok (e, toks)
+      else
+        match parseExprU fuel (if OR_LEFT_TO_RIGHT then OR_BIND_POWER + 1 else OR_BIND_POWER) rest with
+        | .error err => .error err
+        | .ok (r, rest') => parseLoopU fuel bp (.or e r) rest'
+    | _ => .ok (e, toks)
+end
+
+def parseTopU : Nat → List Tok → List Expr → Except PErr (List Expr)
+  | 0, _, _ => .error .fuel
+  | fuel + 1, toks, acc =>
+    match toks with
+    | .eoi :: rest =>
+      if rest.isEmpty then .ok acc.reverse else .error (.trailingTokens toks.length)
+    | _ =>
+      match parseExprU (toks.length + 1) NO_BIND_POWER toks with
+      | .error e => .error e
+      | .ok (e, rest) => parseTopU fuel rest (e :: acc)
+
+def parseTokensU (toks : List Tok) : Except PErr (List Expr) := parseTopU (toks.length + 1) toks []
 
 /-! ## matcher -/
 
